@@ -665,12 +665,183 @@ BLQuickSel(c) ==
   \/ (c.sh \in {"{a}{a}", "{{a}a}"} /\ c.ex # "none")
 BLCases == {c \in BLAll : BLValid(c) /\ (~Quick \/ BLQuickSel(c))}
 
+\* ======================= family XA: functions whose body is an expression (`(p) => x`) ==========================
+\* The arrow A = (p) => E has no statements: whatever it captures or lets capture happens inside the expression E.  E makes two
+\* closures G, S over the variable x, with an action W of A itself between them, and reads x at the end (R):
+\*   kd   : whose variable x is (A's own parameter, a variable of the enclosing function O, a global)
+\*   pk   : how E holds <<G, W, S, R>> (array / object literal, comma expression assigning outer variables, argument list, branch of
+\*          ?: and of &&, a second expression-bodied arrow returned by A: (p) => (q) => [...])
+\*   acc  : rw  A writes x after G was made, S reads;  wr  a closure called inside E writes, A and G read afterwards, S writes again
+\*          later;  inc  G and S both ++x
+\*   cf   : form of the closures (function expression, arrow with a block, arrow with an expression body)
+\*   site : A is a variable called twice / the callback of map over two elements / written out and called in place twice
+\*   nest : all of it at script level, or inside a function O(u) that runs twice
+XAKinds == {"param", "outer", "global"}
+XAPacks == {"arr", "obj", "comma", "arg", "cond", "and", "curry"}
+XAAccs == {"rw", "wr", "inc"}
+XAForms == {"fn", "arrow", "xarrow"}
+XASites == {"var", "cb", "iife"}
+XANests == {"script", "fn"}
+XAX(kd) == CASE kd = "param" -> "p" [] kd = "outer" -> "u" [] kd = "global" -> "gv"
+XAFn(cf, params, x) == CASE cf = "fn" -> Fun("", params, <<SRet(x)>>) [] cf = "arrow" -> Arrow(params, <<SRet(x)>>) [] cf = "xarrow" -> XArrow(params, x)
+XAParts(c) ==
+  LET x == XAX(c.kd) IN
+  CASE c.acc = "rw" -> <<XAFn(c.cf, <<>>, Var(x)), Asg(x, Plus(Var(x), I(10))), XAFn(c.cf, <<"a">>, Plus(Var(x), Var("a"))), Var(x)>>
+    [] c.acc = "wr" -> <<XAFn(c.cf, <<>>, Var(x)), Call(XAFn(c.cf, <<"a">>, Asg(x, Var("a"))), <<I(7)>>), XAFn(c.cf, <<"a">>, CAsg("+", x, Var("a"))), Var(x)>>
+    [] c.acc = "inc" -> <<XAFn(c.cf, <<>>, Upd("++", TRUE, x)), I(0), XAFn(c.cf, <<"a">>, Upd("++", FALSE, x)), Var(x)>>
+XAKeys == <<"g", "w", "s", "r">>
+XAExpr(c) ==
+  LET ps == XAParts(c) IN
+  CASE c.pk \in {"arr", "curry"} -> Arr(ps)
+    [] c.pk = "obj" -> Obj(XAKeys, ps)
+    [] c.pk = "comma" -> Comma(<<Asg("g", ps[1]), ps[2], Asg("h", ps[3]), ps[4]>>)
+    [] c.pk = "arg" -> Call(Var("pack"), ps)
+    [] c.pk = "cond" -> Cond(Bin("<", I(0), I(1)), Arr(ps), I(0))
+    [] c.pk = "and" -> And(I(1), Arr(ps))
+XALit(c) == IF c.pk = "curry" THEN XArrow(<<"p">>, XArrow(<<"q">>, XAExpr(c))) ELSE XArrow(<<"p">>, XAExpr(c))
+\* part k (1 = G, 3 = S, 4 = R) of the result held by variable r
+XAGet(c, r, k) == CASE c.pk = "obj" -> Dot(Var(r), XAKeys[k])
+                    [] c.pk = "comma" -> (IF k = 1 THEN Var("g") ELSE IF k = 3 THEN Var("h") ELSE Var(r))
+                    [] OTHER -> Mem(Var(r), I(k - 1))
+XAFin(c, v) == IF c.pk = "curry" THEN Call(v, <<I(0)>>) ELSE v
+XAAct(c, j) ==                     \* the result of activation j (1, 2) in variable r<j>, its parts in G<j>, S<j>, R<j>
+  LET r == IF j = 1 THEN "r1" ELSE "r2"
+      made == CASE c.site = "var" -> Call(Var("A"), <<I(j)>>)
+                [] c.site = "iife" -> Call(XALit(c), <<I(j)>>)
+                [] c.site = "cb" -> Mem(Var("rs"), I(j - 1))
+  IN <<SVar1(r, XAFin(c, made)),
+       SVar(<<Decl(IF j = 1 THEN "G1" ELSE "G2", XAGet(c, r, 1)), Decl(IF j = 1 THEN "S1" ELSE "S2", XAGet(c, r, 3)),
+              Decl(IF j = 1 THEN "R1" ELSE "R2", XAGet(c, r, 4))>>)>>
+XAUse(g, sx, r, arg) == <<SLog(Var(r)), SLog(Call(Var(g), <<>>)), SLog(Call(Var(sx), <<I(arg)>>)), SLog(Call(Var(g), <<>>))>>
+XAUnit(c) ==
+  (IF c.pk = "comma" THEN <<SVar(<<Decl("g", NoE), Decl("h", NoE)>>)>> ELSE <<>>)
+  \o (CASE c.site = "var" -> <<SVar1("A", XALit(c))>>
+        [] c.site = "cb" -> <<SVar1("rs", Call(Dot(Arr(<<I(1), I(2)>>), "map"), <<XALit(c)>>))>>
+        [] c.site = "iife" -> <<>>)
+  \o XAAct(c, 1) \o XAAct(c, 2)
+  \o XAUse("G1", "S1", "R1", 5) \o XAUse("G2", "S2", "R2", 7) \o XAUse("G1", "S1", "R1", 1)
+  \o (IF c.kd = "param" THEN <<>> ELSE <<SLog(Var(XAX(c.kd)))>>)
+XAProg(c) ==
+  Prog(<<SVar1("gv", I(1)), SFun("pack", <<"a", "b", "c", "d">>, <<SRet(Arr(<<Var("a"), Var("b"), Var("c"), Var("d")>>))>>)>>
+       \o (IF c.nest = "fn" THEN <<SFun("O", <<"u">>, XAUnit(c)), SExpr(Call(Var("O"), <<I(1)>>)), SExpr(Call(Var("O"), <<I(3)>>))>> ELSE XAUnit(c))
+       \o <<SLog(I(50))>>)
+XAAll == {c \in [kd : XAKinds, pk : XAPacks, acc : XAAccs, cf : XAForms, site : XASites, nest : XANests] : c.kd = "outer" => c.nest = "fn"}
+\* quick: every (pk, acc) for a parameter captured by expression-bodied closures; every (cf, site, nest) for one pair; the other
+\* owners of x with three packagings and every access
+XAQuickSel(c) ==
+  \/ (c.kd = "param" /\ c.cf = "xarrow" /\ c.site = "var" /\ c.nest = "script")
+  \/ (c.kd = "param" /\ c.pk = "obj" /\ c.acc = "inc")
+  \/ (c.kd # "param" /\ c.cf = "xarrow" /\ c.site = "var" /\ c.nest = "fn" /\ c.pk \in {"arr", "comma", "curry"})
+XACases == {c \in XAAll : ~Quick \/ XAQuickSel(c)}
+
+\* ======================= family FP: a construct that is the first code of its code unit =========================================
+\* The CF constructs and exits once more, but nothing stands before the construct (or before the construct that encloses it): the
+\* counters n, m are the parameters of the unit (called with 0, 0; for a script: globals the host has set to 0), so the loop's
+\* test / body is the first instruction of the compiled unit.
+\*   unit : function declaration, function expression, arrow, forEach callback, method of an object literal, the script itself
+\*   lead : nothing before it / a `var` without initialiser / an empty statement / the construct inside a bare block
+\*   kd, ex, en : as in CF, plus kd "forbare" = for (; n < 3; ) without init and update
+FPUnits == {"decl", "fexpr", "arrow", "cb", "method", "script"}
+FPLeads == {"first", "barevar", "empty", "inblock"}
+FPKinds == LoopKinds \cup {"forbare"}
+FPEncls == {"none", "while", "dowhile", "for", "forin", "forof", "switch", "block"}
+FPIsLoop(kd) == IsLoop(kd) \/ kd = "forbare"
+FPConstruct(kd, body) == IF kd = "forbare" THEN SFor(NoS, Bin("<", N, ENum(3)), NoE, SBlock(body)) ELSE Construct(kd, body)
+FPInner(kd, ex, reset) ==
+  LET c0 == FPConstruct(kd, Body(ex, IF FPIsLoop(kd) THEN 2 ELSE 1))
+      c1 == IF ex \in {"breakL", "continueL"} \/ kd = "block" THEN SLabel("L", c0) ELSE c0
+  IN (IF reset THEN <<Set("n", ENum(0))>> ELSE <<>>) \o <<c1, SLog(ENum(3))>>
+FPCore(c) ==
+  LET core == Enclose(c.en, c.ex, FPInner(c.kd, c.ex, c.en # "none")) IN
+  CASE c.lead = "first" -> core
+    [] c.lead = "barevar" -> <<SVar1("t", NoE)>> \o core
+    [] c.lead = "empty" -> <<SEmpty>> \o core
+    [] c.lead = "inblock" -> <<SBlock(core)>>
+FPArgs == <<ENum(0), ENum(0)>>
+FPProg(c) ==
+  LET body == FPCore(c) \o <<SLog(ENum(4)), SRet(ENum(7))>>
+      g == c.ex = "throw"
+      use(call) == Guarded(g, <<SVar1("y", call), SLog(Var("y"))>>)
+  IN CASE c.unit = "decl" -> Prog(<<SFun("f", <<"n", "m">>, body)>> \o use(Call(F, FPArgs)) \o <<SLog(ENum(50))>>)
+       [] c.unit = "fexpr" -> Prog(<<SVar1("f", Fun("", <<"n", "m">>, body))>> \o use(Call(F, FPArgs)) \o <<SLog(ENum(50))>>)
+       [] c.unit = "arrow" -> Prog(<<SVar1("f", Arrow(<<"n", "m">>, body))>> \o use(Call(F, FPArgs)) \o <<SLog(ENum(50))>>)
+       [] c.unit = "method" -> Prog(<<SVar1("o", Obj(<<"f">>, <<Fun("", <<"n", "m">>, body)>>))>> \o use(Call(Dot(Var("o"), "f"), FPArgs)) \o <<SLog(ENum(50))>>)
+       [] c.unit = "cb" -> Prog(Guarded(g, <<SExpr(Call(Dot(Arr(<<ENum(0)>>), "forEach"), <<Fun("", <<"n", "m">>, body)>>))>>) \o <<SLog(ENum(50))>>)
+       [] c.unit = "script" -> ProgPre(FPCore(c) \o <<SLog(ENum(4)), SLog(ENum(50))>>, <<"n", "m">>)
+FPAll == [kd : FPKinds, ex : ExitKinds, en : FPEncls, unit : FPUnits, lead : FPLeads]
+FPValid(c) ==
+  /\ CFValid([kd |-> IF c.kd = "forbare" THEN "for" ELSE c.kd, ex |-> c.ex, en |-> c.en, pl |-> IF c.unit = "script" THEN "top" ELSE "stmt", guard |-> c.ex = "throw"])
+  /\ (c.unit = "script" => c.ex # "throw")                  \* an uncaught throw ends the script: CF has it; a guard would stand before the construct
+\* quick: every (construct, exit) first in a function declaration; the constructs whose start is a jump target (while, do-while,
+\* for without init) with the exits that jump, in every unit x lead; every enclosing loop standing first with the exits that name it
+FPQuickSel(c) ==
+  \/ (c.en = "none" /\ c.unit = "decl" /\ c.lead = "first")
+  \/ (c.en = "none" /\ c.kd \in {"while", "dowhile", "forbare"} /\ c.ex \in {"continue", "continueL"})
+  \/ (c.en = "none" /\ c.kd = "while" /\ c.ex \in {"break", "returnv"} /\ c.lead = "first")
+  \/ (c.en \in {"while", "dowhile", "for", "forin", "forof"} /\ c.kd \in {"for", "switch", "block"} /\ c.ex \in {"continue", "continueM", "breakM"}
+      /\ c.unit \in {"decl", "script"} /\ c.lead = "first")
+  \/ (c.en \in {"switch", "block"} /\ c.kd = "while" /\ c.ex \in {"continue", "breakM"} /\ c.unit = "arrow" /\ c.lead = "first")
+FPCases == {c \in FPAll : FPValid(c) /\ (~Quick \/ FPQuickSel(c))}
+
+\* ======================= family LS: several labels on one statement ============================================================
+\* a: b: c: <statement> - every label of the stack names the statement: `break <any of them>` leaves it, `continue <any of them>`
+\* starts the next round of the loop (ECMA-262 LabelledEvaluation: the label set of the loop).
+\*   kd  : the statement under the labels (five loops, switch, block)      d : number of labels (1..3)      tg : which one the exit names
+\*   ex  : break / continue (loops only)
+\*   via : the exit stands directly in the body / in an inner for / in an inner for-in / in a switch / in a try with a finally block
+\*   en  : the labelled statement stands alone or inside a loop that runs twice      pl : at script level / in a function used as an operand
+LSLabs == <<"a", "b", "c">>
+LSVias == {"direct", "infor", "inforin", "insw", "intry"}
+RECURSIVE LSStack(_, _, _)
+LSStack(d, j, s) == IF j > d THEN s ELSE SLabel(LSLabs[j], LSStack(d, j + 1, s))
+LSBody(c) ==
+  LET go == IF c.ex = "break" THEN SBreak(LSLabs[c.tg]) ELSE SCont(LSLabs[c.tg])
+      trig == IF IsLoop(c.kd) THEN 2 ELSE 1
+      when == SIf(Bin("==", N, ENum(trig)), SBlock(<<go>>), NoS)
+  IN <<Inc("n"), SLog(N)>>
+     \o (CASE c.via = "direct" -> <<when>>
+           [] c.via = "infor" -> <<SFor(SVar1("j", ENum(0)), Bin("<", Var("j"), ENum(2)), Asg("j", Plus(Var("j"), ENum(1))),
+                                        SBlock(<<SLog(Plus(Var("j"), ENum(20))), when, SLog(Plus(Var("j"), ENum(30)))>>))>>
+           [] c.via = "inforin" -> <<SForIn(TRUE, "q", Obj(<<"x", "y">>, <<ENum(1), ENum(2)>>), SBlock(<<SLog(Var("q")), when, SLog(EStr("z"))>>))>>
+           [] c.via = "insw" -> <<SSwitch(N, <<Case(ENum(trig), <<SLog(EStr("s")), go>>), Case(NoE, <<SLog(EStr("d"))>>)>>)>>
+           [] c.via = "intry" -> <<STry(SBlock(<<when, SLog(EStr("t"))>>), "e", NoS, SBlock(<<SLog(EStr("F"))>>))>>)
+     \o <<SLog(Plus(N, ENum(10)))>>
+LSCore(c) == <<SVar(<<Decl("n", ENum(0)), Decl("m", ENum(0))>>)>>
+             \o Enclose(c.en, "none", <<Set("n", ENum(0)), LSStack(c.d, 1, Construct(c.kd, LSBody(c))), SLog(ENum(3))>>) \o <<SLog(ENum(4))>>
+LSProg(c) == IF c.pl = "top" THEN Prog(LSCore(c) \o <<SLog(ENum(50))>>)
+             ELSE Prog(<<SFun("f", <<>>, LSCore(c) \o <<SRet(ENum(7))>>), SLog(Plus(CallF, ENum(100))), SLog(ENum(50))>>)
+LSAll == [kd : LoopKinds, d : 1..3, tg : 1..3, ex : {"break", "continue"}, via : LSVias, en : {"none", "for", "forof"}, pl : {"top", "fn"}]
+LSValid(c) == c.tg <= c.d /\ (c.ex = "continue" => IsLoop(c.kd))
+\* quick: every (statement, depth, target, exit) with the exit directly in the body; the other routes for two loops and two
+\* (depth, target) pairs; the enclosing loops and the function placement for the two-label stack
+LSQuickSel(c) ==
+  \/ (c.via = "direct" /\ c.en = "none" /\ c.pl = "top")
+  \/ (c.kd \in {"while", "forof"} /\ <<c.d, c.tg>> \in {<<2, 1>>, <<3, 2>>} /\ c.en = "none" /\ c.pl = "top")
+  \/ (c.kd \in {"dowhile", "for", "switch"} /\ <<c.d, c.tg>> = <<2, 1>> /\ c.via = "direct" /\ (c.en = "none" \/ c.pl = "top"))
+LSCases == {c \in LSAll : LSValid(c) /\ (~Quick \/ LSQuickSel(c))}
+
+\* law of the quick selections above: every value of every dimension of the three families occurs in the selection, and so do
+\* the pairs the families exist for (a hand-written sub-grid that drops a class fails the specification run, not silently)
+NewFamilyCoverage ==
+  /\ \A c \in XAAll : /\ \E q \in XACases : q.kd = c.kd      /\ \E q \in XACases : q.cf = c.cf
+                      /\ \E q \in XACases : q.site = c.site  /\ \E q \in XACases : q.nest = c.nest
+                      /\ \E q \in XACases : q.pk = c.pk /\ q.acc = c.acc /\ q.kd = "param" /\ q.cf = "xarrow"
+  /\ \A c \in {q \in FPAll : FPValid(q)} :
+                      /\ \E q \in FPCases : q.unit = c.unit /\ q.lead = c.lead
+                      /\ \E q \in FPCases : q.en = c.en
+                      /\ (c.en = "none" => \E q \in FPCases : q.kd = c.kd /\ q.ex = c.ex /\ q.en = "none" /\ q.lead = "first")
+  /\ \A c \in {q \in LSAll : LSValid(q)} :
+                      /\ \E q \in LSCases : q.kd = c.kd /\ q.d = c.d /\ q.tg = c.tg /\ q.ex = c.ex
+                      /\ \E q \in LSCases : q.via = c.via /\ q.ex = c.ex
+                      /\ \E q \in LSCases : q.en = c.en     /\ \E q \in LSCases : q.pl = c.pl
+
 \* ======================= the case space ===========================================================
 FamilyProg(cs) == CASE cs.fam = "CF" -> CFProg(cs.c) [] cs.fam = "SW" -> SWProg(cs.c) [] cs.fam = "EO" -> EOProg(cs.c.j)
                     [] cs.fam = "HO" -> HOProg(cs.c.j) [] cs.fam = "CV" -> CVProg(cs.c.j) [] cs.fam = "CL" -> CLProg(cs.c)
                     [] cs.fam = "CH" -> CHProg(cs.c) [] cs.fam = "IR" -> IRFamProg(cs.c)
                     [] cs.fam = "SH" -> SHProg(cs.c) [] cs.fam = "BL" -> BLProg(cs.c)
-Fams == IF "FAMS" \in DOMAIN IOEnv THEN IOEnv.FAMS ELSE "CF SW EO HO CV CL CH IR SH BL"
+                    [] cs.fam = "XA" -> XAProg(cs.c) [] cs.fam = "FP" -> FPProg(cs.c) [] cs.fam = "LS" -> LSProg(cs.c)
+Fams == IF "FAMS" \in DOMAIN IOEnv THEN IOEnv.FAMS ELSE "CF SW EO HO CV CL CH IR SH BL XA FP LS"
 Has(f) == \E j \in 1..(Len(Fams) - 1) : SubSeq(Fams, j, j + 1) = f
 AllCases == (IF Has("CF") THEN {[fam |-> "CF", c |-> c] : c \in CFCases} ELSE {})
             \cup (IF Has("SW") THEN {[fam |-> "SW", c |-> c] : c \in SWCases} ELSE {})
@@ -682,6 +853,9 @@ AllCases == (IF Has("CF") THEN {[fam |-> "CF", c |-> c] : c \in CFCases} ELSE {}
             \cup (IF Has("IR") THEN {[fam |-> "IR", c |-> c] : c \in IRCases} ELSE {})
             \cup (IF Has("SH") THEN {[fam |-> "SH", c |-> c] : c \in SHCases} ELSE {})
             \cup (IF Has("BL") THEN {[fam |-> "BL", c |-> c] : c \in BLCases} ELSE {})
+            \cup (IF Has("XA") THEN {[fam |-> "XA", c |-> c] : c \in XACases} ELSE {})
+            \cup (IF Has("FP") THEN {[fam |-> "FP", c |-> c] : c \in FPCases} ELSE {})
+            \cup (IF Has("LS") THEN {[fam |-> "LS", c |-> c] : c \in LSCases} ELSE {})
 
 \* ======================= state machine around MiniJS ===============================================
 VARIABLES rec_i, cur, mst                \* rec_i: judged record; cur: enumerated case; mst: machine state
@@ -692,7 +866,11 @@ LogAppendOnly == [][IsPrefix(mst.log, mst'.log)]_vars
 MachineNext == ~Halted(mst) /\ mst' = Step(mst, MaxSteps) /\ UNCHANGED <<rec_i, cur>>
 
 \* ---------------- Enum: every family program runs on the reference machine -------------------------
-EnumInit == /\ rec_i = 0 /\ cur \in AllCases /\ mst = InitState(FamilyProg(cur), {})
+\* a program may name globals that the host has set to 0 before the script runs (ProgPre, family FP): they are bound like
+\* any other global, without a declaration in the script
+InitP(prog, devs) == LET s0 == InitState(prog, devs) IN
+                     IF "pre" \in DOMAIN prog THEN [s0 EXCEPT !.heap[1].vars = [x \in {prog.pre[j] : j \in 1..Len(prog.pre)} |-> VInt(0)] @@ @] ELSE s0
+EnumInit == /\ rec_i = 0 /\ cur \in AllCases /\ mst = InitP(FamilyProg(cur), {})
 \* law of the families: every program terminates inside the fragment within the step bound
 EnumTerminates == Halted(mst) => mst.out.o \in {"value", "throw"}
 EnumEmit == ~Halted(mst) \/ PrintT(ToJson([fam |-> cur.fam, par |-> cur.c, prog |-> FamilyProg(cur), steps |-> mst.steps]))
@@ -732,7 +910,7 @@ Agrees(r, ms) ==
   IF ms.out.o = "opaque"                   \* from here the as-is behaviour depends on interpreter internals:
   THEN LogPrefixMatches(r, ms.log, r.log) /\ r.out.o \in {"value", "jserror", "timelimit"}
   ELSE LogMatches(r, ms.log, r.log) /\ OutMatches(r, ms.out, r.out)
-JudgeInit == /\ rec_i \in 1..Len(Recs) /\ cur = <<>> /\ mst = InitState(Recs[rec_i].prog, DevsOf(Recs[rec_i]))
+JudgeInit == /\ rec_i \in 1..Len(Recs) /\ cur = <<>> /\ mst = InitP(Recs[rec_i].prog, DevsOf(Recs[rec_i]))
 JudgeEmit == ~Halted(mst) \/
   PrintT(ToJson([id |-> Recs[rec_i].id, ok |-> Agrees(Recs[rec_i], mst), o |-> mst.out.o, fired |-> mst.fired,
                  exp |-> [log |-> mst.log, out |-> mst.out], steps |-> mst.steps]))
